@@ -409,10 +409,14 @@ class PathResult:
     __slots__ = ('pc', 'result', 'panic', 'events', 'trace', 'inconclusive', 'extra')
 
 class Machine:
-    def __init__(self, prog, stubs=None, max_steps=2_000_000, release=False, timeout_ms=20000):
+    def __init__(self, prog, stubs=None, max_steps=2_000_000, release=False, timeout_ms=20000, arith=False):
         self.prog = prog; self.stubs = [(re.compile(p), f) for p, f in (stubs or {}).items()]
         self.max_steps = max_steps; self.release = release
-        self.solver = z3.Solver(); self.solver.set('timeout', timeout_ms)
+        # arith=True: path feasibility is decided by z3's integer-blasting bit-vector solver (smt.bv.solver=2), for kernels dominated by multiply / divide by constants
+        self.arith = arith
+        self.solver = z3.SimpleSolver() if arith else z3.Solver()
+        if arith: self.solver.set('smt.bv.solver', 2)
+        self.solver.set('timeout', timeout_ms)
         self.stats = collections.Counter(); self.promoted = {}
         self.trace = []; self.tpos = 0; self.work = []
         self.pc = []; self.events = []; self.steps = 0; self.nfresh = 0; self._divcache = {}
@@ -561,6 +565,7 @@ class Machine:
             self.trace = self.work.pop(); self.tpos = 0
             self.pc = []; self.events = []; self.steps = 0; self.nfresh = 0; self.domains = {}; self._divcache = {}
             self.solver.reset(); self.solver.set('timeout', 20000)
+            if self.arith: self.solver.set('smt.bv.solver', 2)
             for c in self.base_constraints: self.solver.add(c)
             pr = PathResult(); pr.panic = None; pr.result = None; pr.inconclusive = None; pr.extra = None
             try:
